@@ -24,6 +24,14 @@
    readnets <k> (ident name npins p..)*k            -> none | <m> (name ident cable)*m      whole cell
    emitnets <m> (name ident lower array nw (npins p..)*nw)*m -> <k> (ident name npins p..)*k
    file   <str>                                    -> err <reason> | ok <json>       whole file: EdifFile.elab_text
+   emitfile <nts> ts.. <prog> <floats> <file>               -> raises | unsupported | ok <rt 0..5> <ordered 0/1> <prepass f = Some f 0/1> <writable 0/1> <sexp>    whole file: EdifEmit.emit_file
+            floats: <n> (lib cell inst <nprops> xprop..)*n, xprop = prop | ident (~|orig) n <neg 0/1> <digits> <exp>
+            prog: ~ | <str> (~|<str>);  file: name ident <nlibs> lib.. (~ | name ident lib cell)
+            lib: name ident <ncells> cell..;  cell: name ident <np> port.. <ni> inst.. <nc> cab..
+            port: name ident dir width array;  inst: name ident (~ | lib cell) <nprops> prop..
+            prop: ident (~|orig) (i <decimal> | s <str> | b 0/1);  cab: name ident lower array <nw> (npins pin..)*nw
+            pin: t port k | i inst port k.   rt = EdifEmit.rt_status (0: read back as norm_file n)
+   prepass <file>                                  -> none | ok <json>               EdifEmit.prepass
    cable printed as: <lower> <array 0/1> <nw> (npins p..)*nw
    json of the whole-file result: strings are arrays of code points; a pin is ["t",port,k] or
    ["i",instance,port,k] (identifiers); integers of properties are decimal strings *)
@@ -138,8 +146,90 @@ let ferr_name = function
   | FeIndex -> "index" | FeJoinedTwice -> "joined-twice" | FeNoRef -> "no-reference" | FeNetName -> "net-name"
   | FeUnsupported -> "unsupported"
 
+(* ---- whole-file writer model (Fmt/EdifEmit.v) ---- *)
+let n_of_dec s =
+  let ten = n_of_int 10 in
+  let acc = ref N0 in
+  String.iter (fun ch -> acc := N.add (N.mul ten !acc) (n_of_int (Char.code ch - 48))) s; !acc
+let z_of_dec s =
+  let neg = String.length s > 0 && s.[0] = '-' in
+  let body = if neg then String.sub s 1 (String.length s - 1) else s in
+  match n_of_dec body with N0 -> Z0 | Npos p -> if neg then Zneg p else Zpos p
+let one_str = function x :: l -> (str_of_tok x, l) | [] -> failwith "short"
+let one_n = function x :: l -> (n_of_dec x, l) | [] -> failwith "short"
+let one_bool = function x :: l -> (x = "1", l) | [] -> failwith "short"
+let opt_of f = function "~" :: l -> (None, l) | l -> let (x, l') = f l in (Some x, l')
+let p_prop l =
+  let (idt, l) = one_str l in
+  let (orig, l) = opt_of one_str l in
+  match l with
+  | "i" :: z :: l -> ({ pr_ident = idt; pr_orig = orig; pr_val = PVInt (z_of_dec z) }, l)
+  | "s" :: v :: l -> ({ pr_ident = idt; pr_orig = orig; pr_val = PVStr (str_of_tok v) }, l)
+  | "b" :: b :: l -> ({ pr_ident = idt; pr_orig = orig; pr_val = PVBool (b = "1") }, l)
+  | _ -> failwith "bad property value"
+let p_port l =
+  let (nm, l) = one_str l in let (idt, l) = one_str l in let (d, l) = one_n l in
+  let (w, l) = one_n l in let (a, l) = one_bool l in
+  ({ po_name = nm; po_ident = idt; po_dir = d; po_width = w; po_array = a }, l)
+let p_inst l =
+  let (nm, l) = one_str l in let (idt, l) = one_str l in
+  let (r, l) = opt_of (fun l -> let (a, l) = one_str l in let (b, l) = one_str l in ((a, b), l)) l in
+  let (ps, l) = take_list p_prop l in
+  ({ in_name = nm; in_ident = idt; in_ref = r; in_props = ps }, l)
+let p_pin = function
+  | "t" :: p :: k :: l -> (PTop (str_of_tok p, n_of_dec k), l)
+  | "i" :: i :: p :: k :: l -> (PInst (str_of_tok i, str_of_tok p, n_of_dec k), l)
+  | _ -> failwith "bad pin"
+let p_cab l =
+  let (nm, l) = one_str l in let (idt, l) = one_str l in let (lo, l) = one_n l in let (a, l) = one_bool l in
+  let (ws, l) = take_list (fun l -> take_list p_pin l) l in
+  (((nm, idt), { c_lower = lo; c_array = a; c_wires = ws }), l)
+let p_cell l =
+  let (nm, l) = one_str l in let (idt, l) = one_str l in
+  let (ports, l) = take_list p_port l in let (insts, l) = take_list p_inst l in let (cabs, l) = take_list p_cab l in
+  ({ ce_name = nm; ce_ident = idt; ce_view = None; ce_ports = ports; ce_insts = insts; ce_cabs = cabs }, l)
+let p_lib l =
+  let (nm, l) = one_str l in let (idt, l) = one_str l in let (cells, l) = take_list p_cell l in
+  ({ li_name = nm; li_ident = idt; li_cells = cells }, l)
+let p_top l =
+  let (nm, l) = one_str l in let (idt, l) = one_str l in let (lb, l) = one_str l in let (c, l) = one_str l in
+  ({ tp_name = nm; tp_ident = idt; tp_lib = lb; tp_cell = c }, l)
+let p_file l =
+  let (nm, l) = one_str l in let (idt, l) = one_str l in let (libs, l) = take_list p_lib l in
+  let (top, l) = opt_of p_top l in
+  ({ nf_name = nm; nf_ident = idt; nf_libs = libs; nf_top = top }, l)
+let p_xprop l =
+  let (idt, l) = one_str l in
+  let (orig, l) = opt_of one_str l in
+  match l with
+  | "n" :: neg :: digits :: e :: l -> ({ xp_ident = idt; xp_orig = orig; xp_val = XNum (neg = "1", n_of_dec digits, z_of_dec e) }, l)
+  | "i" :: z :: l -> ({ xp_ident = idt; xp_orig = orig; xp_val = XV (PVInt (z_of_dec z)) }, l)
+  | "s" :: v :: l -> ({ xp_ident = idt; xp_orig = orig; xp_val = XV (PVStr (str_of_tok v)) }, l)
+  | "b" :: b :: l -> ({ xp_ident = idt; xp_orig = orig; xp_val = XV (PVBool (b = "1")) }, l)
+  | _ -> failwith "bad x property value"
+let p_floats l =
+  take_list (fun l ->
+      let (lb, l) = one_str l in let (c, l) = one_str l in let (i, l) = one_str l in
+      let (xs, l) = take_list p_xprop l in
+      ((((lb, c), i), xs), l)) l
+let p_prog l = opt_of (fun l -> let (p, l) = one_str l in let (v, l) = opt_of one_str l in ((p, v), l)) l
+
 let handle line =
   match String.split_on_char ' ' line with
+  | "emitfile" :: rest ->
+    let (ts, rest) = take_list one_str rest in
+    let (prog, rest) = p_prog rest in
+    let (fl, rest) = p_floats rest in
+    let (f, _) = p_file rest in
+    (match emit_file ts prog fl f with
+     | EmRaises -> "raises"
+     | EmUnsupported -> "unsupported"
+     | EmOk d ->
+       let fix = (match prepass f with Some g -> file_eqb g f | None -> false) in
+       "ok " ^ dec_small (rt_status ts prog fl f) ^ " " ^ jbool (ordered f) ^ " " ^ jbool fix ^ " " ^ jbool (writable f && params_w ts prog && fl = []) ^ " " ^ show_sexp d)
+  | "prepass" :: rest ->
+    let (f, _) = p_file rest in
+    (match prepass f with None -> "none" | Some g -> "ok " ^ jfile g)
   | ["file"; s] ->
     (match elab_text (str_of_tok s) with
      | Err e -> "err " ^ ferr_name e
